@@ -90,39 +90,7 @@ def run(chk) -> None:
                     appended_ids[id(fn)] = (wid, st)
 
     # ---------------------------------------------------------------- R2: id in [0,n) \ in-use  (finite, exhaustive)
-    mm, add_fn = repo.func(f"{CL}:_add_or_enqueue_event")
-    if id(add_fn) not in appended_ids:
-        raise AnchorError("C01.R2: `_add_or_enqueue_event` does not append an InProgressState(worker_id=…)")
-    wid_expr, at_stmt = appended_ids[id(add_fn)]
-    full = expand(wid_expr, at_stmt)
-    state_param = add_fn.args.args[2].arg if len(add_fn.args.args) >= 3 else "state"
-    cases = bad = 0
-    sample = []
-    reason = ""
-    try:
-        for n in range(1, 5):
-            for k in range(0, n):  # capacity test holds: fewer than n in progress
-                for used in itertools.combinations(range(n), k):
-                    st = Record("InternalStepWorkerState", in_progress=[Record("InProgressState", worker_id=u) for u in used],
-                                config=Record("StepConfig", num_workers=n))
-                    cases += 1
-                    try:
-                        v = Interp({state_param: st}).eval(full, {state_param: st})
-                    except Raised as r:
-                        bad += 1
-                        reason = reason or f"num_workers={n}, in use {used}: raises {r}"
-                        continue
-                    if len(sample) < 4:
-                        sample.append({"num_workers": n, "in_use": list(used), "id": v})
-                    if not (isinstance(v, int) and 0 <= v < n and v not in used):
-                        bad += 1
-                        reason = reason or f"num_workers={n}, in use {used}: id expression gives {v!r}"
-    except Unsupported as e:
-        raise AnchorError(f"C01.R2: id expression `{ast.unparse(full)[:80]}` uses an unsupported construct: {e}")
-    chk.ob("C01.R2", f"worker id `{ast.unparse(full)[:90]}` ∈ [0,n) \\ in-use for all {cases} (n, in-use) combinations, n=1..4", bad == 0,
-           m=mm, node=wid_expr, fn=add_fn, instance="worker-id", reason=reason)
-    chk.extra["id_enumeration"] = {"cases": cases, "bad": bad, "samples": sample}
-    chk.exhaustive = True
+    check_worker_id(chk, "C01.R2", appended_ids)
 
     # ---------------------------------------------------------------- R3: CommandRunWorker only for a live entry
     rw = []
@@ -219,6 +187,63 @@ def run(chk) -> None:
                 chk.ob("C01.R5", f"`{recv}.queue.pop` (drain) happens only under the capacity test", ok, m=mod, node=c, fn=fn,
                        instance="drain", reason="queue element popped without a dominating capacity test")
     chk.floor("C01.R5", "drain loops", drains, 2)
+
+
+def appended_worker_ids(repo) -> dict:
+    """id(fn) -> (worker_id expression, statement) for every `X.in_progress.append(InProgressState(worker_id=…))`."""
+    out = {}
+    for mod in list(repo.by_rel.values()):
+        if not mod.name.startswith(PKG_PREFIX):
+            continue
+        for node, kind in attr_writes(mod.tree, "in_progress"):
+            fn = enclosing_function(node)
+            if fn is None or kind != "mutcall:append":
+                continue
+            call = parent(parent(node))
+            if isinstance(call, ast.Call) and call.args and isinstance(call.args[0], ast.Call):
+                wid = kwarg(call.args[0], "worker_id")
+                if wid is not None:
+                    out[id(fn)] = (wid, enclosing_stmt(node))
+    return out
+
+
+def check_worker_id(chk, rule: str, appended_ids: dict | None = None) -> None:
+    """The worker id given to a new in-progress entry is, for every in-use set and num_workers 1..4, in [0,n) and not in use."""
+    repo = chk.repo
+    appended_ids = appended_ids if appended_ids is not None else appended_worker_ids(repo)
+    mm, add_fn = repo.func(f"{CL}:_add_or_enqueue_event")
+    if id(add_fn) not in appended_ids:
+        raise AnchorError(f"{rule}: `_add_or_enqueue_event` does not append an InProgressState(worker_id=…)")
+    wid_expr, at_stmt = appended_ids[id(add_fn)]
+    full = expand(wid_expr, at_stmt)
+    state_param = add_fn.args.args[2].arg if len(add_fn.args.args) >= 3 else "state"
+    cases = bad = 0
+    sample = []
+    reason = ""
+    try:
+        for n in range(1, 5):
+            for k in range(0, n):  # capacity test holds: fewer than n in progress
+                for used in itertools.combinations(range(n), k):
+                    st = Record("InternalStepWorkerState", in_progress=[Record("InProgressState", worker_id=u) for u in used],
+                                config=Record("StepConfig", num_workers=n))
+                    cases += 1
+                    try:
+                        v = Interp({state_param: st}).eval(full, {state_param: st})
+                    except Raised as r:
+                        bad += 1
+                        reason = reason or f"num_workers={n}, in use {used}: raises {r}"
+                        continue
+                    if len(sample) < 4:
+                        sample.append({"num_workers": n, "in_use": list(used), "id": v})
+                    if not (isinstance(v, int) and 0 <= v < n and v not in used):
+                        bad += 1
+                        reason = reason or f"num_workers={n}, in use {used}: id expression gives {v!r}"
+    except Unsupported as e:
+        raise AnchorError(f"{rule}: id expression `{ast.unparse(full)[:80]}` uses an unsupported construct: {e}")
+    chk.ob(rule, f"worker id `{ast.unparse(full)[:90]}` ∈ [0,n) \\ in-use for all {cases} (n, in-use) combinations, n=1..4", bad == 0,
+           m=mm, node=wid_expr, fn=add_fn, instance="worker-id", reason=reason)
+    chk.extra["id_enumeration"] = {"cases": cases, "bad": bad, "samples": sample}
+    chk.exhaustive = True
 
 
 def _in_class(fn: ast.AST, name: str) -> bool:
